@@ -449,10 +449,13 @@ impl<C: CellType> OptRebuild<'_, C> {
         for (var, calc) in calcs {
             // Special check to avoid overly large expressions.
             if calc.as_ref().op_count() < 32 {
-                if let Some(calc) = self.eval_written(calc) {
-                    knowns.push((var, OptWrite::Known(calc)));
-                } else {
-                    knowns.push((var, OptWrite::Unknown));
+                // The evaluated expression can be much larger than the one
+                // that is executed, so it must be checked as well.
+                match self.eval_written(calc) {
+                    Some(calc) if calc.op_count() < 32 => {
+                        knowns.push((var, OptWrite::Known(calc)));
+                    }
+                    _ => knowns.push((var, OptWrite::Unknown)),
                 }
             } else {
                 knowns.push((var, OptWrite::Unknown));
